@@ -127,6 +127,22 @@ def judge_ctl(run, cases, rows):
                         theorem="Arb.Cases.leader_foreign")
 
 
+def judge_removed(run, cases, rows3):
+    from . import c03
+    for c in cases:
+        if c.get("error") or c["id"] not in rows3:
+            continue
+        r = rows3[c["id"]]
+        if r[c03.STEP] != 0 and r[c03.CODE] in (30, 31):
+            ev = c["histories"][0]["events"][r[c03.STEP] - 1]
+            run.failing({"kind": "configuration-not-removed" if r[c03.CODE] == 31 else "configuration-missing", "event_kind": ev["spec"]["kind"]}, [c],
+                        "C16: applying the change batches returned by the real Configuration in order, after step %d of case %d (%s %s %s/%s, class annotation %r field %r) %s: %s"
+                        % (r[c03.STEP], c["id"], ev["op"], ev["spec"]["kind"], ev["spec"].get("ns"), ev["spec"].get("name"), ev["spec"].get("class_ann"), ev["spec"].get("class_field"),
+                           "something stays configured that is not active any more (a resource whose class changed away, or that lost its host to a claimant, was not removed)"
+                           if r[c03.CODE] == 31 else "an active resource has no configuration", json.dumps(c03.describe(c, r[c03.STEP]))[:400]),
+                        theorem="Arb.Cases.shadow_run")
+
+
 def check(run):
     n = 250 if run.tier == "quick" else 5000
     run.proof_obligations()
@@ -137,6 +153,10 @@ def check(run):
     part = cases[: (150 if run.tier == "quick" else 2500)]
     crow = arb.evaluate(run, part, fn="ctl_case", extra=arb.ctl_term, tag="arbctl")
     judge_ctl(run, part, crow)
+    # "when a served resource's class changes away, its configuration is removed": the change batches applied in order must
+    # leave nothing configured that is not active (the C03 shadow), and the files must be those of the active resources
+    judge_removed(run, cases, arb.evaluate(run, cases, fn="c03_case", tag="arb3"))
+    arb.judge_files(run, part, crow, "C16")
     run.cov["controller_level_histories"] = len(part)
     for c in cases[:2]:
         run.sample(arb.summarize_case(c))
